@@ -210,13 +210,15 @@ pub fn run(ctx: &mut Ctx) {
         let sp = sp_for(i);
         let mut gc = GenCfg::block(*r.pick(&UNITS));
         gc.words = gen::words_for(&[&sp]);
-        gc.allow_unwrap = false;
+        let mode = r.below(3);
+        // unwrap-blocks only with pure CRLF / mixed line ends (a lone CR inside a tag line makes
+        // the geometry unspecified anyway)
+        gc.allow_unwrap = mode != 2;
         gc.allow_inline = i % 2 == 0;
         let mut d = gen_block_doc(&mut r, &gc);
         if is_c04 && i % 4 != 0 {
             make_nothing_ready(&mut d, &mut r);
         }
-        let mode = r.below(3);
         crlf_pieces(&mut d, &mut r, mode);
         let rd = render(&d, &sp);
         judge_one(ctx, &rd, &sp, &cfg, STEP, "ast-cr");
@@ -229,7 +231,7 @@ pub fn run(ctx: &mut Ctx) {
         }
         let p = SeamParams::from_rank(rank, !is_c04);
         let sp = default_sp();
-        let d = seam_doc(&p, UNITS[(rank % 3) as usize], &words);
+        let d = seam_doc(&p, UNITS[(rank % UNITS.len() as u64) as usize], &words);
         let rd = render(&d, &sp);
         judge_one(ctx, &rd, &sp, &cfg, STEP, "seam");
     }
